@@ -283,6 +283,9 @@ pub struct Ev<'a> {
     pub inner_unroll: Option<usize>,
     /// functions replaced by a fixed result
     pub stop_vals: std::collections::HashMap<String, Val>,
+    /// atoms with one of these suffixes are not forked on: only the `true` branch is followed
+    /// (used to collapse bound(...) continuation flags where they cannot influence what is analysed)
+    pub assume_true_suffix: Vec<String>,
 }
 
 fn then(outs: Outs, mut f: impl FnMut(St, Val) -> Outs) -> Outs {
@@ -302,7 +305,7 @@ fn path_str(p: &syn::Path) -> Vec<String> {
 
 impl<'a> Ev<'a> {
     pub fn new(ix: &'a Index) -> Self {
-        Ev { ix, cur_file: Default::default(), unsupported: Default::default(), push_fns: vec![], stops: vec![], max_depth: 12, open_at_top: Default::default(), inner_unroll: None, stop_vals: Default::default() }
+        Ev { ix, cur_file: Default::default(), unsupported: Default::default(), push_fns: vec![], stops: vec![], max_depth: 12, open_at_top: Default::default(), inner_unroll: None, stop_vals: Default::default(), assume_true_suffix: vec![] }
     }
     fn site(&self, sp: proc_macro2::Span) -> String {
         format!("{}:{}", self.cur_file.borrow(), sp.start().line)
@@ -319,7 +322,8 @@ impl<'a> Ev<'a> {
             g => {
                 let a = g.first_atom().unwrap();
                 let mut r = Vec::new();
-                for b in [true, false] {
+                let only_true = self.assume_true_suffix.iter().any(|sfx| a.ends_with(sfx.as_str()));
+                for b in if only_true { vec![true] } else { vec![true, false] } {
                     let mut s2 = st.clone();
                     s2.cond.insert(a.clone(), b);
                     r.extend(self.decide(s2, &g));
